@@ -1415,6 +1415,8 @@ var c19Mutants = []Mutant{
 		Old: "[A-Za-z0-9!#$&^_.+-]{0,126}$`)", New: "[A-Za-z0-9!#$&^_.+-]{0,126}`)", Expect: "C19.R6"},
 	{Name: "media-type-allows-star", File: "pack.go",
 		Old: "/[A-Za-z0-9][A-Za-z0-9!#$&^_.+-]{0,126}$", New: "/[A-Za-z0-9][A-Za-z0-9!#$&^_.+*-]{0,126}$", Expect: "C19.R6"},
+	{Name: "validator-accepts-empty", File: "pack.go",
+		Old: "\tif !mediaTypeRegexp.MatchString(mediaType) {", New: "\tif !mediaTypeRegexp.MatchString(mediaType) && mediaType != \"\" {", Expect: "C19.R6"},
 	{Name: "validator-inverted", File: "pack.go",
 		Old: "\tif !mediaTypeRegexp.MatchString(mediaType) {", New: "\tif mediaTypeRegexp.MatchString(mediaType) && len(mediaType) > 255 {", Expect: "C19.R6"},
 }
